@@ -53,12 +53,16 @@ Response(e) ==
        /\ (IF v # "ok" \/ seen \in pred.touches THEN TRUE
            ELSE RecordDrift(tid, l, "children inspected in another order than the model predicts"))
 
-Expected(k) == IF k.kind = "dir" THEN "menu" ELSE "content"
+Expected(k) == IF IsDirKind(k) THEN "menu" ELSE "content"
+\* a link to nothing, a socket ... kept out of a listing (it is only generated under a name the pattern hides) cannot
+\* be "retrieved": StillRetrievable speaks about regular files and directories
+Retrievable(k) == k.kind \in {"file", "dir", "dirabs"}
 Fetch(e) ==
     /\ UNCHANGED <<dvars, pred, seen, first, nlist>>
     /\ IF e.name \notin Names(d) THEN verdict' = "unmatched" /\ UNCHANGED fetched
        ELSE /\ fetched' = fetched \cup {e.name}
-            /\ verdict' = IF e.name \notin Visible(d) /\ e.got # Expected(KidOf(d, e.name)) THEN "StillRetrievable" ELSE "ok"
+            /\ verdict' = IF e.name \notin Visible(d) /\ Retrievable(KidOf(d, e.name)) /\ e.got # Expected(KidOf(d, e.name))
+                          THEN "StillRetrievable" ELSE "ok"
 
 Factorial[n \in Nat] == IF n = 0 THEN 1 ELSE n * Factorial[n - 1]
 End(e) ==
